@@ -153,6 +153,11 @@ func sustained(idx int64, r *rand.Rand) {
 	// exactly representable as float64 (the algorithms convert), so the run starts from a small value whatever the
 	// baseline left by the prefix is (a first sample below the baseline merely lowers it and is not "effective")
 	rtt := 1000 + r.Int64N(1000000)
+	if kind == "gradient" && r.IntN(8) == 0 {
+		// "any rtt": a wall clock that stepped back yields negative durations - a drop is a drop whatever it measured
+		rtt = -1000000 - r.Int64N(1000000)
+		rt.Count("gradient_sustained_runs_with_negative_rtts", 1)
+	}
 	eff, total, extra := 0, 0, 0
 	for total < capTotal {
 		before := l.EstimatedLimit()
